@@ -466,6 +466,21 @@ class AoefSim:
                 return
             # a fault got there first; fall through to fault bookkeeping
 
+        if outcome == "ack" and op.get("recheck_arg") and self.active("C01"):
+            # the saved object is described again: whatever the caller holds
+            # after the call is "the original" a later load is compared with,
+            # so a save that edits its argument breaks the round trip under
+            # one reading or the other
+            again = node.call("describe", src=src)
+            if again["outcome"] == "value":
+                self.probes.hit("save:argument-described-again-after-save")
+                for where, detail in canon_diffs(canon, again["canon"]):
+                    self.violate(
+                        "C01",
+                        f"C01:save-modified-its-argument:{where}",
+                        f"{described['type']} passed to save (audio_dir="
+                        f"{audio!r}) is different afterwards: {detail}",
+                    )
         if outcome == "ack":
             self.files[p] = new_entry
             if after is None:
@@ -906,6 +921,7 @@ class _Gen:
             "audio_as": self.how(),
             "api": self.api(),
             "fault": self.wfault() if fault == "auto" else fault,
+            "recheck_arg": self.rng.random() < 0.25,
         }
         self.emit(op)
         self.saved[p] = audio
@@ -1245,6 +1261,7 @@ SIMPLIFY = {
     "audio_as": "str",
     "api": "io",
     "type_arg": False,
+    "recheck_arg": False,
 }
 prune_candidates = specs.prune_candidates
 NONTRIVIAL_RULE = {
